@@ -92,6 +92,12 @@ class Algebra:
     def _atom(cls, name, **attrs):
         a = Atom(cls, name)
         a.attrs.update(attrs)
+        k = attrs.get("kind")
+        # sympy's class flags (an alternative spelling of the isinstance tests)
+        a.attrs.update(_scalar=True, is_Add=k == "add", is_Mul=k == "mul", is_Number=k == "num", is_Symbol=k == "index",
+                       is_Atom=k in ("num", "index"), is_Pow=False, is_Function=k == "delta")
+        if k is not None and k != "index":
+            a.attrs["free_symbols"] = set(Algebra.indices_of(None, a))
         return a
 
     # ---- constructors
@@ -100,6 +106,7 @@ class Algebra:
                        _classes=IDX_CLS, args=())
         a.attrs["name"] = name
         a.attrs["indices"] = (a,)
+        a.attrs["free_symbols"] = {a}
         self.names[(name, spin)] = a
         return a
 
@@ -201,7 +208,7 @@ class Algebra:
         if k in ("mul", "add"):
             out = []
             for f in e.args:
-                for i in self.indices_of(f):
+                for i in Algebra.indices_of(self, f):
                     if i not in out:
                         out.append(i)
             return out
@@ -215,19 +222,60 @@ class Algebra:
 
     # ---- hooks
     def hooks(self):
-        def want_index(types):
-            if not types:
-                return True
+        def cls_names(types):
+            out = []
             for t in types:
                 n = getattr(t, "short", None) or getattr(t, "name", None) or (t.args[0] if isinstance(t, T) and t.op == "sym" else None)
-                if n is not None and str(n).split(".")[-1] in IDX_CLS:
-                    return True
-            return False
+                if n is None:
+                    raise AnalysisError(f"C09 model: class argument {t!r} not understood")
+                out.append(str(n).split(".")[-1])
+            return out
+
+        def nodes(e):
+            out = [e]
+            k = kind(e)
+            if k in ("mul", "add"):
+                for f in e.args:
+                    out.extend(nodes(f))
+            elif k in ("tensor", "delta"):
+                out.extend(e.indices)
+            return out
+
+        def need(e, what):
+            if kind(e) is None:
+                raise AnalysisError(f"C09 model: {what} of an unmodelled value {e!r}")
 
         def h_atoms(sx, a, kw):
-            if kind(a[0]) is None:
-                raise AnalysisError(f"C09 model: atoms() of an unmodelled value {a[0]!r}")
-            return set(self.indices_of(a[0])) if want_index(a[1:]) else set()
+            need(a[0], "atoms()")
+            names = cls_names(a[1:])
+            if not names:
+                return {x for x in nodes(a[0]) if kind(x) in ("index", "num")}
+            return {x for x in nodes(a[0]) if any(n in x.attrs["_classes"] for n in names)}
+
+        def h_has(sx, a, kw):
+            need(a[0], "has()")
+            pats = a[1:]
+            found = False
+            for pat in pats:
+                if kind(pat) is not None:
+                    found = found or any(x is pat for x in nodes(a[0]))
+                else:
+                    n = cls_names([pat])[0]
+                    found = found or any(n in x.attrs["_classes"] for x in nodes(a[0]))
+            return found
+
+        def h_make_args(which):
+            def h(sx, a, kw):
+                e = a[-1]
+                need(e, "make_args()")
+                return tuple(e.args) if kind(e) == which else (e,)
+            return h
+
+        def h_ordered(which):
+            def h(sx, a, kw):
+                need(a[0], "as_ordered_*()")
+                return list(a[0].args) if kind(a[0]) == which else [a[0]]
+            return h
 
         def pairs_of(a):
             if len(a) == 2 and kind(a[0]) == "index":
@@ -278,7 +326,9 @@ class Algebra:
                     raise AnalysisError(f"C09 model: get_symbols({v!r})")
             return out
 
-        return {"atoms": h_atoms, "subs": h_subs, "xreplace": h_xreplace, "get_symbols": h_get_symbols,
+        return {"atoms": h_atoms, "subs": h_subs, "xreplace": h_xreplace, "get_symbols": h_get_symbols, "has": h_has,
+                "Mul.make_args": h_make_args("mul"), "Add.make_args": h_make_args("add"),
+                "as_ordered_factors": h_ordered("mul"), "as_ordered_terms": h_ordered("add"),
                 "Add": lambda sx, a, kw: self.add(a), "Mul": lambda sx, a, kw: self.mul(a),
                 "KroneckerDelta": lambda sx, a, kw: self.delta(a[0], a[1])}
 
@@ -359,6 +409,23 @@ def valuation(alg, e, targets):
             poly = out.setdefault(key, {})
             poly[mono] = poly.get(mono, 0) + coeff
     return {k: {m: c for m, c in p.items() if c != 0} for k, p in out.items() if any(c != 0 for c in p.values())}
+
+
+def delta_classes(alg, e):
+    """index -> representative of its class under the deltas of the term(s)."""
+    cls = {i: i for i in alg.indices_of(e)}
+
+    def find(i):
+        if i not in cls:
+            cls[i] = i
+        while cls[i] is not i:
+            i = cls[i]
+        return i
+    for t in terms_of(e):
+        for f in factors_of(t):
+            if kind(f) == "delta":
+                cls[find(f.args[0])] = find(f.args[1])
+    return find
 
 
 def evaluable(x, y, targets):
@@ -462,9 +529,9 @@ def scenarios(tier):
     Candidates: template x (space, spin) assignment x argument order of every delta x factor order x target mode
     (summation convention, every subset of the indices as Index list, and as name string when spin-less), restricted
     to the precondition of the property.  2-index templates run over all 81 assignments, 3-index ones over all 729
-    (thorough) or QUICK3, 4-index ones over QUICK3 (thorough) or QUICK4.  A deterministic hash sample of the
-    candidates of each template is evaluated (quick: about 200, thorough: about 2500; the all-(occ, no spin)
-    assignment is over-sampled)."""
+    (thorough) or QUICK3, 4-index ones over QUICK3 (thorough) or QUICK4.  Always evaluated: the all-(occ, no spin)
+    assignment and the 2-index templates in the given factor order, with convention / Index-list targets; of the
+    rest a deterministic hash sample per template (quick: about 150, thorough: about 2500)."""
     full = tier == "thorough"
     for name, (n, spec) in list(TEMPLATES.items()) + list(SUMS.items()):
         is_sum = name in SUMS
@@ -491,7 +558,7 @@ def scenarios(tier):
                 return tgs[0], None
             how, sel = mode
             targets = [idx[k] for k in sel]
-            return targets, ("".join(i.name for i in targets) if how == "str" else list(targets))
+            return targets, ("".join(i.name for i in targets) if how == "str" else targets[0] if how == "one" else list(targets))
 
         cands = []
         for types in itertools.product(pool, repeat=n):
@@ -500,16 +567,19 @@ def scenarios(tier):
                 r = targets_of(alg, idx, e, mode)
                 if r is not None and precondition(alg, e, r[0]):
                     cands.extend((types, v, mode) for v in variants)
-        goal = (2500 if full else 60 if name in TRIVIAL else 200)
+        goal = (2500 if full else 40 if name in TRIVIAL else 150)
         p = min(1.0, goal / max(1, len(cands)))
         for k, (types, (flip, rev), mode) in enumerate(cands):
-            core = all(t == ("occ", "") for t in types)
+            plain = mode == "sum" or mode[0] == "list"
+            # never sampled: the all-(occ, no spin) assignment (control flow: chains, restarts, target passing) and
+            # the 2-index templates in their given factor order (information handling)
+            always = plain and name not in TRIVIAL and (all(t == ("occ", "") for t in types) or (n == 2 and not rev))
             u = ((k + 1) * 2654435761 % 4294967296) / 4294967296
-            if u >= (min(1.0, 4 * p) if core else p):
+            if not always and u >= p:
                 continue
             alg, idx, e = make(types, flip, rev)
             targets, arg = targets_of(alg, idx, e, mode)
-            tl = "convention" if arg is None else ("names " if isinstance(arg, str) else "list ") + \
+            tl = "convention" if arg is None else ("names " if isinstance(arg, str) else "list " if isinstance(arg, list) else "index ") + \
                 "{" + ",".join(i.name for i in targets) + "}"
             label = f"{name} [{' '.join(tlabel(t) for t in types)}] order {flip}{'r' if rev else ''} targets {tl}"
             yield label, alg, e, targets, arg
@@ -520,6 +590,8 @@ def _target_modes(n, types):
     for r in range(n + 1):
         for sel in itertools.combinations(range(n), r):
             modes.append(("list", sel))
+            if r == 1:
+                modes.append(("one", sel))
             if all(types[k][1] == "" for k in sel):
                 modes.append(("str", sel))
     return modes
@@ -528,11 +600,32 @@ def _target_modes(n, types):
 # ------------------------------------------------------------------ rules
 
 def make_sx(ctx, alg, what):
-    return Symex(ctx.model, inline=lambda q: True, hooks=alg.hooks(), what=what, max_depth=40, max_paths=64)
+    return Symex(ctx.model, inline=lambda q: True, hooks=alg.hooks(), what=what, max_depth=40, max_paths=64, recursion_error=True)
 
 
 def show_term(e):
     return e.name if isinstance(e, Atom) else repr(e)
+
+
+class Tally:
+    """Passing scenarios are single obligations; failing ones are reported once per (check, template) with a count and
+    the first examples (a defect usually fails hundreds of scenarios)."""
+
+    def __init__(self, ctx, fn):
+        self.ctx, self.fn, self.fail = ctx, fn, {}
+
+    def check(self, rule, what, label, cond, fact, reason):
+        if cond:
+            self.ctx.ok(rule, self.fn, f"{label}: {fact}", key=f"{what} {label}")
+        else:
+            self.fail.setdefault((rule, what, label.split(" [")[0]), []).append(f"{label}: {reason}")
+        return cond
+
+    def flush(self):
+        for (rule, what, template), msgs in self.fail.items():
+            self.ctx.bad(rule, self.fn, f"{what}: {len(msgs)} scenario(s) of `{template}` fail, e.g. " + " || ".join(msgs[:2]),
+                         key=f"{what} {template}")
+        return not self.fail
 
 
 def r09ac(ctx, tier):
@@ -540,6 +633,7 @@ def r09ac(ctx, tier):
     params = [a.arg for a in fn.args.args]
     if params[:2] != ["expr", "target_idx"]:
         raise AnalysisError(f"evaluate_deltas no longer takes (expr, target_idx): {params}")
+    tally = Tally(ctx, fn)
     n_scen = n_subs = n_none = 0
     for label, alg, e, targets, arg in scenarios(tier):
         n_scen += 1
@@ -552,52 +646,50 @@ def r09ac(ctx, tier):
                         and not geq(f.args[0], f.args[1]) and not geq(f.args[1], f.args[0])]
         if o.kind == "raise":
             if incomparable:
-                ctx.bad("R09a", fn, f"{label}: raises {o.exc} on a delta whose indices carry incomparable information "
-                        "(such a delta has to be left in place)", key=f"none {label}")
+                tally.check("R09a", "incomparable delta", label, False, "", f"raises {o.exc} on a delta whose indices carry "
+                            "incomparable information (such a delta has to be left in place)")
             else:
-                ctx.bad("R09c", fn, f"{label}: raises {o.exc}", key=f"raise {label}")
+                tally.check("R09c", "completes", label, False, "", f"raises {o.exc}")
             continue
         res = o.value
         if kind(res) is None:
             if res is None or isinstance(res, (int, str, tuple, list)):
-                ctx.bad("R09c", fn, f"{label}: returns {res!r} instead of an expression", key=f"value {label}")
+                tally.check("R09c", "value", label, False, "", f"returns {res!r} instead of an expression")
                 continue
             raise AnalysisError(f"C09: result of {label} is outside the model: {res!r}")
         if incomparable:
             n_none += 1
-            ctx.ok("R09a", fn, f"{label}: incomparable delta passed over", key=f"none {label}")
+            tally.check("R09a", "incomparable delta", label, True, "passed over", "")
         # ---- R09a: legality of every substitution performed
         problems = []
+        linked = delta_classes(alg, e)
         for before, old, new in alg.log:
             n_subs += 1
-            partner = any(kind(f) == "delta" and {old, new} == set(f.args)
-                          for t in terms_of(before) for f in factors_of(t))
-            if not partner:
-                problems.append(f"{ilabel(old)} -> {ilabel(new)} in {show_term(before)}: the two are not the indices of a delta of that term")
+            if linked(old) is not linked(new):
+                problems.append(f"{ilabel(old)} -> {ilabel(new)} in {show_term(before)}: the two indices are not connected by deltas of the term")
             if old in targets:
                 problems.append(f"{ilabel(old)} -> {ilabel(new)} in {show_term(before)}: the removed index is a target index")
             if not geq(new, old):
                 problems.append(f"{ilabel(old)} -> {ilabel(new)} in {show_term(before)}: the replacement carries less space/spin "
                                 "information than the removed index")
-        ctx.check("R09a", fn, not problems, f"{label}: {len(alg.log)} substitution(s) remove non-target indices without loss of information",
-                  f"{label}: " + "; ".join(problems[:3]), key=f"subs {label}")
+        tally.check("R09a", "substitutions", label, not problems,
+                    f"{len(alg.log)} substitution(s) remove non-target indices without loss of information", "; ".join(problems[:3]))
         # ---- R09c: value and normal form
         want, got = valuation(alg, e, targets), valuation(alg, res, targets)
         msg = ""
         if want != got:
             k = next(k for k in sorted(set(want) | set(got)) if want.get(k) != got.get(k))
-            msg = (f"{label}: {show_term(e)} -> {show_term(res)} changes the value: for targets "
+            msg = (f"{show_term(e)} -> {show_term(res)} changes the value: for targets "
                    f"{dict(zip([i.name for i in targets], k))} expected {_poly(want.get(k))}, got {_poly(got.get(k))}")
-        ctx.check("R09c", fn, want == got, f"{label}: value preserved for all {len(want)} non-vanishing target assignments", msg,
-                  key=f"value {label}")
+        tally.check("R09c", "value", label, want == got, f"value preserved for all {len(want)} non-vanishing target assignments", msg)
         left = [f for t in terms_of(res) for f in factors_of(t) if kind(f) == "delta" and evaluable(f.args[0], f.args[1], targets)]
-        ctx.check("R09c", fn, not left, f"{label}: no evaluable delta left",
-                  f"{label}: {show_term(e)} -> {show_term(res)} leaves {left[0].name if left else ''} although one of its indices "
-                  "is not a target and can be replaced without loss of information (stale deltas / wrong targets)",
-                  key=f"normal form {label}")
-    ctx.floor("R09c", "scenarios of evaluate_deltas evaluated", n_scen, 300)
-    ctx.floor("R09a", "substitutions observed while evaluating evaluate_deltas", n_subs, 200)
-    ctx.floor("R09a", "scenarios with an incomparable delta", n_none, 5)
+        tally.check("R09c", "normal form", label, not left, "no evaluable delta left",
+                    f"{show_term(e)} -> {show_term(res)} leaves {left[0].name if left else ''} although one of its indices "
+                    "is not a target and can be replaced without loss of information (stale deltas / wrong targets)")
+    if tally.flush():
+        ctx.floor("R09c", "scenarios of evaluate_deltas evaluated", n_scen, 300)
+        ctx.floor("R09a", "substitutions observed while evaluating evaluate_deltas", n_subs, 200)
+        ctx.floor("R09a", "scenarios with an incomparable delta", n_none, 5)
 
 
 def _poly(p):
